@@ -2,6 +2,8 @@
 
 package storage
 
+import "os"
+
 // Verification hooks are compiled out unless the `verif` build tag is set.
 
 func verifPoint(string, uint64) {}
@@ -11,3 +13,5 @@ func verifAutoFlush(autoFlushCache bool) bool { return autoFlushCache }
 func verifOpened(*fileStore, bool) {}
 
 func verifClosed(*fileStore) {}
+
+func verifWALFile(f *os.File) readWriteSyncCloser { return f }
